@@ -82,6 +82,11 @@ var c12HTMLForms = []struct{ name, tmpl string }{
 	{"charset-selfclose-sp", `<%M %C="L" />`},
 	{"charset-selfclose-unq", `<%M %C=L />`},
 	{"charset-extra-attrs", `<%M name="x" %C="L" data-y="1">`},
+	// a <meta charset> that also carries a content attribute without any
+	// charset in it, in both attribute orders (the two differ in order only)
+	{"content-then-charset", `<%M %T="text/html" %C="L">`},
+	{"charset-then-content", `<%M %C="L" %T="text/html">`},
+	{"charset-name-content", `<%M %C="L" name="viewport" %T="width=device-width">`},
 	{"charset-newlines", "<%M\n%C='L'\n>"},
 	{"charset-tabs", "<%M\t%C=\"L\"\t>"},
 	{"pragma", `<%M %H="Content-Type" %T="text/html; charset=L">`},
